@@ -439,7 +439,14 @@ class Gen(object):
             if p < .3:
                 pass
             elif p < .5:
-                d[m['name']] = m['opt'][1]
+                v = m['opt'][1]
+                rt = self.resolve(m['t'])
+                if rt['k'] == 'BIT STRING' and rt.get('named') and rt['size'] is None and r.random() < .5:
+                    # the default value written with additional trailing zero bits (the same abstract value)
+                    b, n = v
+                    n2 = n + r.choice([1, 7, 8, 9])
+                    v = (bytes(b) + bytes((n2 + 7) // 8 - len(b)), n2)
+                d[m['name']] = v
             else:
                 d[m['name']] = self.gen_value(m['t'], depth=depth + 1)
         else:
